@@ -130,6 +130,9 @@ pub enum Backing {
 pub fn build_mmap<B: Bitmap + NewBitmap + 'static>(lay: &Layout, backing: &[Backing], r: &mut Rng) -> (GuestMemoryMmap<B>, Vec<RawRegion>, Flat) {
     let mut regs = vec![];
     let mut filemeta = vec![];
+    // one time in three the collection is built in one go (from_ranges_with_files / from_ranges)
+    let one_go = r.chance(1, 3);
+    let mut tuples: Vec<(GuestAddress, usize, Option<FileOffset>)> = vec![];
     for (i, (s, l)) in lay.regions.iter().enumerate() {
         let len = *l as usize;
         let fo = if backing[i] == Backing::File && !cfg!(miri) {
@@ -142,9 +145,22 @@ pub fn build_mmap<B: Bitmap + NewBitmap + 'static>(lay: &Layout, backing: &[Back
             filemeta.push(None);
             None
         };
-        regs.push(GuestRegionMmap::<B>::from_range(GuestAddress(*s as u64), len, fo).expect("region"));
+        if one_go {
+            tuples.push((GuestAddress(*s as u64), len, fo));
+        } else {
+            regs.push(GuestRegionMmap::<B>::from_range(GuestAddress(*s as u64), len, fo).expect("region"));
+        }
     }
-    let gm = GuestMemoryMmap::from_regions(regs).expect("layout");
+    let gm = if one_go {
+        if tuples.iter().all(|t| t.2.is_none()) && r.chance(1, 2) {
+            let plain: Vec<(GuestAddress, usize)> = tuples.iter().map(|t| (t.0, t.1)).collect();
+            GuestMemoryMmap::from_ranges(&plain).expect("layout (from_ranges)")
+        } else {
+            GuestMemoryMmap::from_ranges_with_files(tuples).expect("layout (from_ranges_with_files)")
+        }
+    } else {
+        GuestMemoryMmap::from_regions(regs).expect("layout")
+    };
     let mut raws = vec![];
     let mut bytes = vec![];
     for (i, reg) in gm.iter().enumerate() {
